@@ -238,9 +238,11 @@ func (s *ServerSession) doMsg(stream *Stream) error {
 		fallthrough
 	case base.RtmpTypeIdVideo:
 		if s.sessionStat.BaseType() != base.SessionBaseTypePubStr {
+			// 不是pub类型的session（还没有publish，或者是play），avObserver为nil，不能回调
 			err = nazaerrors.Wrap(base.ErrRtmpUnexpectedMsg)
+		} else {
+			s.avObserver.OnReadRtmpAvMsg(stream.toAvMsg())
 		}
-		s.avObserver.OnReadRtmpAvMsg(stream.toAvMsg())
 	default:
 		Log.Warnf("[%s] read unknown message. stream=%s, msg=%s", s.UniqueKey(), stream.toDebugString(), hex.EncodeToString(refForDebugLog))
 
